@@ -18,6 +18,7 @@ import ast
 import z3
 
 from pyvc import lib
+from pyvc.state import Raised, Unsupported
 from pyvc import symexec as SE
 from pyvc import vals as VV
 from pyvc.vals import I, V, Val, as_ref, fresh_name, uf, v_bool
@@ -71,7 +72,7 @@ def _set_of(ex, st, v):
         return _orig_set_of(ex, st, v)
     try:
         n, arr, ety = lib.seq_parts(ex, st, v)
-    except lib.Unsupported:
+    except Unsupported:
         return _orig_set_of(ex, st, v)
     # membership: a fresh domain constant axiomatised pointwise (no z3 lambda in the heap, see _concat)
     dom = z3.Const(fresh_name('sdom'), z3.ArraySort(Val, VV.B))
@@ -117,7 +118,7 @@ _orig_type = None
 def _b_type(ex, st, args, kw, node):
     try:
         return _orig_type(ex, st, args, kw, node)
-    except lib.Unsupported:
+    except Unsupported:
         if not _mine(ex):
             raise
         ex.ctx.note('ENGINE (c16c) type(x) of a value of unknown class: opaque object (only formatted into a message)')
@@ -153,7 +154,7 @@ def _alt_triggers(body, j, limit=3) -> list:
     """Sub-terms f(.., j, ..) / a[j] of `body` whose other arguments do not mention j: alternative E-matching triggers,
     so that a pointwise axiom  forall j. new[j] == body(j)  also fires from the SOURCE side (a ground a[q] instantiates
     it and thereby creates new[q])."""
-    from pyvc.state import occurs
+    from pyvc.state import occurs, pattern_ok
     out, seen, todo = [], set(), [body]
     while todo:
         t = todo.pop()
@@ -164,10 +165,18 @@ def _alt_triggers(body, j, limit=3) -> list:
         k = t.decl().kind()
         if kids and any(c.eq(j) for c in kids) and k in (z3.Z3_OP_SELECT, z3.Z3_OP_UNINTERPRETED) \
                 and not any(occurs(j, c) for c in kids if not c.eq(j)):
-            if not any(t.eq(o) for o in out):
+            if not any(t.eq(o) for o in out) and pattern_ok(t):
                 out.append(t)
         todo.extend(kids)
     return out[:limit]
+
+
+def _forall_pt(vs, body, pats):
+    """ForAll with the alternative triggers when z3 accepts them, else with the first (primary) one only."""
+    try:
+        return z3.ForAll(vs, body, patterns=pats)
+    except z3.Z3Exception:
+        return z3.ForAll(vs, body, patterns=pats[:1])
 
 
 def _is_namedtuple(ci) -> bool:
@@ -196,16 +205,16 @@ def _construct_namedtuple_block(ex, st, ci, args, kwargs, node):
     if not _mine(ex) or not st.bound or not _is_namedtuple(ci):
         return None
     if len(st.bound) != 1 or st.guards:
-        raise lib.Unsupported('c16c: NamedTuple built under several binders / a guard')
+        raise Unsupported('c16c: NamedTuple built under several binders / a guard')
     j, guard = st.bound[0]
     n = _binder_range(guard)
     if n is None or not z3.is_int(j):
-        raise lib.Unsupported('c16c: NamedTuple built under a binder that is not 0 <= j < n')
+        raise Unsupported('c16c: NamedTuple built under a binder that is not 0 <= j < n')
     names = _nt_fields(ex, ci)
     vals_ = dict(zip(names, args))
     vals_.update(kwargs)
     if set(vals_) != set(names):
-        raise lib.Unsupported('c16c: NamedTuple with defaults')
+        raise Unsupported('c16c: NamedTuple with defaults')
     key = ex.repo.class_key(ci)
     # references of the block: ntref(j), an injective (inverse ntidx) uninterpreted function -- no arithmetic on
     # references, so that E-matching alone chains  list[j] -> ntref(j) -> field[ntref(j)] -> value(j)
@@ -224,8 +233,7 @@ def _construct_namedtuple_block(ex, st, ci, args, kwargs, node):
         cur = st.field(nme)
         new = z3.Const(fresh_name(f'NT!{nme}'), cur.sort())
         val = z3.substitute(ex.box(st, vals_[nme]), (j, jj))
-        st.pc.append(z3.ForAll([jj], z3.Implies(rng, z3.Select(new, ntref(jj)) == val),
-                               patterns=[ntref(jj)] + _alt_triggers(val, jj)))
+        st.pc.append(_forall_pt([jj], z3.Implies(rng, z3.Select(new, ntref(jj)) == val), [ntref(jj)] + _alt_triggers(val, jj)))
         st.pc.append(z3.ForAll([r], z3.Implies(r < old_alloc, z3.Select(new, r) == z3.Select(cur, r)),
                                patterns=[z3.Select(new, r)]))
         st.heap[nme] = new
@@ -261,14 +269,27 @@ _prev_comprehension = None
 
 def _comprehension(ex, st, node, kind):
     out = _prev_comprehension(ex, st, node, kind)
-    if _mine(ex) and kind == 'list' and out.kind == 'list' and not st.spec and not st.bound:
+    if not _mine(ex) or kind != 'list' or st.bound:
+        return out
+
+    def named(el):
+        """fresh array constant equal pointwise to the lambda `el` (triggers: the constant and the source terms)"""
+        jj = z3.Int(fresh_name('j'))
+        arr = z3.Const(fresh_name('comp'), z3.ArraySort(I, Val))
+        body = z3.simplify(z3.Select(el, jj))
+        st.pc.append(_forall_pt([jj], z3.Select(arr, jj) == body, [z3.Select(arr, jj)] + _alt_triggers(body, jj)))
+        return arr
+    if out.kind == 'py' and out.py and out.py[0] == 'specseq':
+        # generator expression / comprehension evaluated without allocation
+        el = z3.simplify(out.py[2])
+        if z3.is_quantifier(el) and el.is_lambda():
+            return VV.v_py(('specseq', out.py[1], named(el), out.py[3]))
+        return out
+    if out.kind == 'list' and not st.spec:
         r = as_ref(out)
         el = z3.simplify(st.read(r, '$elems'))
         if z3.is_quantifier(el) and el.is_lambda():
-            jj = z3.Int(fresh_name('j'))
-            arr = z3.Const(fresh_name('comp'), z3.ArraySort(I, Val))
-            body = z3.simplify(z3.Select(el, jj))
-            st.pc.append(z3.ForAll([jj], z3.Select(arr, jj) == body, patterns=[z3.Select(arr, jj)] + _alt_triggers(body, jj)))
+            arr = named(el)
             cur = st.heap['$elems']
             if z3.is_app(cur) and cur.decl().kind() == z3.Z3_OP_STORE and cur.arg(1).eq(r):
                 st.heap['$elems'] = z3.Store(cur.arg(0), r, arr)       # drop the lambda altogether
@@ -277,6 +298,34 @@ def _comprehension(ex, st, node, kind):
     return out
 
 
+# ---- sorted(): the same LIBSPEC facts once more, with triggers on the SOURCE and on the RESULT elements -----------------
+_orig_sorted = None
+
+
+def _b_sorted(ex, st, args, kw, node):
+    out = _orig_sorted(ex, st, args, kw, node)
+    if not _mine(ex) or kw:
+        return out
+    n, arr, _ety = lib.seq_parts(ex, st, args[0])
+    SEQ = z3.ArraySort(I, Val)
+    out_arr = uf('sorted_arr', SEQ, I, SEQ)(arr, n)
+    perm = uf('sorted_perm', SEQ, I, z3.ArraySort(I, I))(arr, n)
+    inv = uf('sorted_inv', SEQ, I, z3.ArraySort(I, I))(arr, n)
+    j = z3.Int(fresh_name('j'))
+    rng = z3.And(j >= 0, j < n)
+    # consequences of the bijection axioms of the core LIBSPEC (nothing new is assumed): every source element sits
+    # at position inv[j] of the result, every result element comes from position perm[j] of the source
+    try:
+        st.assume(z3.ForAll([j], z3.Implies(rng, z3.And(z3.Select(inv, j) >= 0, z3.Select(inv, j) < n,
+                                                       z3.Select(perm, z3.Select(inv, j)) == j,
+                                                       z3.Select(out_arr, z3.Select(inv, j)) == z3.Select(arr, j))),
+                            patterns=[z3.Select(arr, j)]))
+        st.assume(z3.ForAll([j], z3.Implies(rng, z3.And(z3.Select(perm, j) >= 0, z3.Select(perm, j) < n,
+                                                       z3.Select(out_arr, j) == z3.Select(arr, z3.Select(perm, j)))),
+                            patterns=[z3.Select(out_arr, j)]))
+    except z3.Z3Exception:
+        pass
+    return out
 
 
 # ---- super().__init__(...) of a constructor under contract: inlined ------------------------------------------------
@@ -288,6 +337,125 @@ def _comprehension(ex, st, node, kind):
 # contract of the base constructor stays verified on its own.
 INLINE_SUPER_INIT: set = set()
 _orig_call_pyobj = None
+
+
+# ---- classmethods: `cls` is the declaring class ----------------------------------------------------------------------
+# ENGINE (core): the parameter `cls` of a classmethod is an untyped value, `cls(...)` an uninterpreted call, and a call
+# `C.m(...)` of a classmethod binds no `cls`.  Here (C16 only): inside a classmethod `cls` denotes the declaring class
+# (A-CLS: no subclass is considered; contracts/c16c_static.py checks that the class has no subclass in the package) and
+# a call through the class passes it.
+_orig_e_name = None
+_orig_call_repo_function = None
+
+
+def _e_Name(self, st, node):
+    if _mine(self) and node.id == 'cls' and self.frames and not st.spec:
+        f = self.frame.func
+        if f is not None and f.cls and 'classmethod' in f.decorators:
+            self.ctx.note(f'A-CLS (c16c): inside the classmethod {f.qualname}, cls is the declaring class {f.cls}')
+            return VV.v_py(('class', self.repo.find_class(f.cls, f.module)))
+    return _orig_e_name(self, st, node)
+
+
+def _call_repo_function(self, st, fi, args, kwargs, node, recv_cls=None):
+    if _mine(self) and 'classmethod' in fi.decorators and fi.cls:
+        first = args[0] if args else None
+        if not (first is not None and first.kind == 'py' and first.py and first.py[0] == 'class'):
+            args = [VV.v_py(('class', self.repo.find_class(fi.cls, fi.module)))] + list(args)
+    return _orig_call_repo_function(self, st, fi, args, kwargs, node, recv_cls=recv_cls)
+
+
+# ---- a (non-pure) contract WITHOUT modifies applied under a binder ---------------------------------------------------
+# ENGINE (core): inside a comprehension of symbolic length the element is evaluated once under a binder j; a callee
+# contract that is not declared `pure` would get ONE fresh result constant for every j (unsound; the core now refuses
+# it: "contract not pure under a quantifier / comprehension binder").  A contract that modifies nothing denotes a
+# function of its arguments and of the heap it reads, so here (C16 only) it is applied as a pure contract whose
+# `reads` are all the fields its requires/ensures mention (plus the container internals): result = F(args, those
+# heap arrays), one value per j.  A contract with a non-empty `modifies` stays refused.
+_orig_apply_contract = None
+
+
+def _fields_of(con) -> list:
+    out = []
+    for src in list(con.requires.values()) + list(con.ensures.values()):
+        for n in ast.walk(ast.parse(src, mode='eval')):
+            if isinstance(n, ast.Attribute) and n.attr not in out:
+                out.append(n.attr)
+    return sorted(out) + ['$len', '$elems', '$dom', '$map']
+
+
+def _apply_contract(self, st, con, args, kwargs, node):
+    if _mine(self) and st.bound and not con.pure and not con.modifies:
+        import copy
+        con2 = copy.copy(con)
+        con2.pure = True
+        con2.reads = _fields_of(con)
+        self.ctx.note(f'ENGINE (c16c) contract of {con.qualname} (modifies nothing) applied under a binder as a pure function of '
+                      'its arguments and of the fields it mentions')
+        return _orig_apply_contract(self, st, con2, args, kwargs, node)
+    return _orig_apply_contract(self, st, con, args, kwargs, node)
+
+
+# ---- iter(set) / next(iterator) ---------------------------------------------------------------------------------------
+# LIBSPEC (C16 only): `iter(s)` of a set allocates an iterator object with two ghost fields: `$it_set` (the set) and
+# `$it_pos` (number of elements already delivered, 0 at creation).  `next(it)` raises StopIteration iff
+# $it_pos >= len(s); otherwise it returns set_enum(dom(s), $it_pos) -- the element at that position of the set's
+# arbitrary but fixed enumeration (the same `set_card` / `set_enum` the core uses for `for x in s`: each member once)
+# -- and increments $it_pos.  (A set that is mutated while iterated is outside the model.)
+IT_CLASS = 'c16c_set_iterator'
+
+
+def set_card_of(st, sv):
+    return uf('set_card', I, z3.ArraySort(Val, VV.B), I)(as_ref(sv), st.set_dom(sv))
+
+
+def set_enum_at(st, sv, i):
+    return uf('set_enum', z3.ArraySort(Val, VV.B), I, Val)(st.set_dom(sv), i)
+
+
+def _b_iter(ex, st, args, kw, node):
+    if not _mine(ex) or len(args) != 1 or args[0].kind != 'set' or st.spec:
+        raise Unsupported('iter()')
+    r = st.new_ref('setiter')
+    st.write(r, '$it_set', args[0].t)
+    st.write(r, '$it_pos', VV.v_int(0).t)
+    st.assume(set_card_of(st, args[0]) >= 0)
+    ex.ctx.note('LIBSPEC (c16c) iter(set): iterator object with ghost fields $it_set, $it_pos = 0')
+    return VV.v_ref(r, IT_CLASS)
+
+
+def _b_next(ex, st, args, kw, node):
+    if not _mine(ex) or len(args) != 1 or st.spec:
+        raise Unsupported('next()')
+    it = args[0]
+    if not ((it.kind == 'ref' and it.ty.cls in (IT_CLASS, None)) or it.kind == 'any'):
+        raise Unsupported(f'next() of a {it.kind} value that is not a set iterator')
+    r = as_ref(it)
+    sv = V(st.read(r, '$it_set'), VV.TSet(VV.ANY))
+    pos = VV.as_int(V(st.read(r, '$it_pos'), VV.INT))
+    ex.ctx.note('LIBSPEC (c16c) next(set iterator): StopIteration iff $it_pos >= len(set); else the element at $it_pos of '
+                'the fixed enumeration of the set, $it_pos += 1')
+    if not ex.decide(st, pos < set_card_of(st, sv)):
+        raise Raised('StopIteration')
+    val = set_enum_at(st, sv, pos)
+    st.write(r, '$it_pos', VV.v_int(z3.simplify(pos + 1)).t)
+    return V(val, VV.ANY)
+
+
+# ---- assignment to a property that has a setter -------------------------------------------------------------------------
+# ENGINE (core): `obj.p = v` always writes the field p, also when the class defines `@p.setter`.  Here (C16 only): the
+# setter body is executed (the class table keeps the last `def p`, which is the setter).
+_orig_store_attr = None
+
+
+def _store_attr(self, st, obj, name, v, node):
+    if _mine(self) and obj.kind == 'ref' and obj.ty.cls:
+        fi = self.repo.resolve_method(obj.ty.cls, name)
+        if fi is not None and any(d.endswith('.setter') for d in fi.decorators):
+            self.ctx.note(f'ENGINE (c16c) assignment to the property {fi.qualname}: the setter is executed')
+            self.call_repo_function(st, fi, [obj, v], {}, node, recv_cls=obj.ty.cls)
+            return
+    return _orig_store_attr(self, st, obj, name, v, node)
 
 
 class _WithoutContract:
@@ -325,7 +493,7 @@ def install():
     auto-loaded by pyvc.lib for every property; importing it alone changes nothing).  Every wrapper additionally
     declines unless a function of property C16 is being verified."""
     global _INSTALLED, _orig_binop, _orig_set_of, _orig_py_eq, _orig_type, _orig_e_tuple, _orig_unpack
-    global _prev_comprehension, _orig_call_pyobj
+    global _orig_apply_contract, _orig_sorted, _prev_comprehension, _orig_call_pyobj, _orig_e_name, _orig_call_repo_function, _orig_store_attr
     if _INSTALLED:
         return
     _INSTALLED = True
@@ -346,3 +514,15 @@ def install():
     lib.comprehension = _comprehension
     _orig_call_pyobj = lib.call_pyobj
     lib.call_pyobj = _call_pyobj
+    _orig_apply_contract = SE.Executor.apply_contract
+    SE.Executor.apply_contract = _apply_contract
+    lib.BUILTINS['iter'] = _b_iter
+    lib.BUILTINS['next'] = _b_next
+    _orig_sorted = lib.BUILTINS['sorted']
+    lib.BUILTINS['sorted'] = _b_sorted
+    _orig_store_attr = SE.Executor.store_attr
+    SE.Executor.store_attr = _store_attr
+    _orig_e_name = SE.Executor._e_Name
+    SE.Executor._e_Name = _e_Name
+    _orig_call_repo_function = SE.Executor.call_repo_function
+    SE.Executor.call_repo_function = _call_repo_function
